@@ -40,7 +40,7 @@ type ItemResult struct {
 	Trouble  string   `json:"trouble,omitempty"`
 }
 
-var histKinds = []string{"accepted", "accepted", "accepted", "repeat", "rejected-mutant", "junk-program", "unparseable", "renamed-bodies"}
+var histKinds = []string{"accepted", "accepted", "accepted", "repeat", "rejected-mutant", "junk-program", "unparseable", "renamed-bodies", "type-stress", "type-stress", "respelled"}
 
 func DrawHistory(ch Chooser) []HistItem {
 	n := 2 + ch.Intn(4)
@@ -66,6 +66,14 @@ func DrawHistory(ch Chooser) []HistItem {
 			it.Text = gen.JunkProgram(ch.Intn)
 		case "unparseable":
 			it.Text = gen.MutateBytes(ch.Intn, gen.Generate(ch.Intn, gen.Options{}).Text(), 3)
+		case "type-stress":
+			// the same few type names (A, B, C) with different definitions from item to item, and
+			// equalities between them: what a cache of type facts surviving between runs would confuse
+			it.Text = gen.TypeStress(ch.Intn)
+		case "respelled":
+			p := gen.Generate(ch.Intn, gen.Options{Collide: true})
+			gen.ApplyTypeVariants(p, ch.Intn)
+			it.Text = p.Text()
 		default:
 			// same declaration names as an earlier item, different bodies: the shape a
 			// name-keyed cache surviving between runs would confuse
